@@ -166,6 +166,16 @@ func init() {
 			return fr.i.hraftFuture(nil, nil)
 		}
 	}
+	intrinsics["(*"+hraftPkg+".Raft).GetConfiguration"] = func(fr *frame, args []value) value {
+		t := fr.i.hraftType("configurationsFuture")
+		z := zero(t)
+		return iface{t: types.NewPointer(t), v: &z}
+	}
+	intrinsics["(*"+hraftPkg+".configurationsFuture).Error"] = func(fr *frame, args []value) value { return nilErr() }
+	intrinsics["(*"+hraftPkg+".configurationsFuture).Index"] = func(fr *frame, args []value) value { return uint64(0) }
+	intrinsics["(*"+hraftPkg+".configurationsFuture).Configuration"] = func(fr *frame, args []value) value {
+		return zero(fr.i.hraftType("Configuration"))
+	}
 	intrinsics["(*"+hraftPkg+".Raft).Shutdown"] = func(fr *frame, args []value) value {
 		hraftOf(args[0]).down = true
 		return fr.i.hraftFuture(nil, nil)
@@ -182,14 +192,80 @@ func init() {
 	}
 	intrinsics["("+hraftPkg+".errorFuture).Index"] = func(fr *frame, args []value) value { return uint64(0) }
 
-	// gossip layer of the repository (wraps hashicorp/memberlist): joining is implicit in the
-	// model, forwarding queues are not modelled
-	const ml = "(*github.com/echovault/sugardb/internal/memberlist.MemberList)."
-	for _, m := range []string{"MemberListInit", "ForwardDataMutation", "ForwardDeleteKey", "MemberListShutdown", "broadcastRaftAddress"} {
-		intrinsics[ml+m] = func(fr *frame, args []value) value { return nil }
-	}
 	intrinsics["github.com/echovault/sugardb/internal.GetFreePort"] = func(fr *frame, args []value) value {
 		fr.i.freePort++
 		return tuple{int(20000 + fr.i.freePort), nilErr()}
 	}
+}
+
+// ---- gossip (hashicorp/memberlist) ----
+//
+// The repository's MemberListInit, delegate and broadcast-message code run for real; hashicorp's
+// memberlist is an ideal channel to the leader: a message queued for broadcast is handed, as the
+// bytes its Message() method produces, to the NotifyMsg of the current leader's delegate (every
+// node re-broadcasts until the leader has it, so eventually that is what happens). Joining is
+// implicit. Loss, duplication, delay and re-ordering of gossip are outside the model.
+
+const hmlPkg = "github.com/hashicorp/memberlist"
+
+func structField(t types.Type, v value, name string) value {
+	st := t.Underlying().(*types.Struct)
+	for k := 0; k < st.NumFields(); k++ {
+		if st.Field(k).Name() == name {
+			return v.(structure)[k]
+		}
+	}
+	return nil
+}
+
+func init() {
+	zeroResultStubs[hmlPkg+".DefaultWANConfig"] = true
+	zeroResultStubs[hmlPkg+".DefaultLANConfig"] = true
+	zeroResultStubs[hmlPkg+".DefaultLocalConfig"] = true
+	zeroResultStubs["github.com/sethvargo/go-retry.NewFibonacci"] = true
+	zeroResultStubs["github.com/sethvargo/go-retry.NewConstant"] = true
+	zeroResultStubs["github.com/sethvargo/go-retry.NewExponential"] = true
+	for _, n := range []string{"WithMaxRetries", "WithJitter", "WithCappedDuration", "WithMaxDuration", "WithJitterPercent"} {
+		intrinsics["github.com/sethvargo/go-retry."+n] = func(fr *frame, args []value) value { return args[1] }
+	}
+	intrinsics["github.com/sethvargo/go-retry.RetryableError"] = func(fr *frame, args []value) value { return args[0] }
+	intrinsics["github.com/sethvargo/go-retry.Do"] = func(fr *frame, args []value) value {
+		return call(fr.i, fr, token.NoPos, args[2], []value{args[0]})
+	}
+	intrinsics[hmlPkg+".Create"] = func(fr *frame, args []value) value {
+		i := fr.i
+		cfgT := i.prog.ImportedPackage(hmlPkg).Pkg.Scope().Lookup("Config").Type()
+		cfg := *(args[0].(*value))
+		d := structField(cfgT, cfg, "Delegate")
+		i.hmlDelegates = append(i.hmlDelegates, d)
+		fr.i.ex.noteAssumption("hashicorp/memberlist is modelled as an ideal channel to the leader: a queued broadcast is delivered once, as the bytes of its Message(), to the leader's delegate; joining is implicit")
+		var v value = &opaque{kind: "hml", data: len(i.hmlDelegates) - 1}
+		return tuple{&v, nilErr()}
+	}
+	intrinsics["(*"+hmlPkg+".Memberlist).Join"] = func(fr *frame, args []value) value { return tuple{int(1), nilErr()} }
+	intrinsics["(*"+hmlPkg+".Memberlist).Leave"] = func(fr *frame, args []value) value { return nilErr() }
+	intrinsics["(*"+hmlPkg+".Memberlist).Shutdown"] = func(fr *frame, args []value) value { return nilErr() }
+	intrinsics["(*"+hmlPkg+".TransmitLimitedQueue).QueueBroadcast"] = func(fr *frame, args []value) value {
+		i := fr.i
+		b := args[1].(iface)
+		m := findMethod(i, b.t, "Message")
+		if m == nil {
+			panic(abortPath{why: "gossip model: broadcast without Message()", kind: "unsupported"})
+		}
+		msg := callSSA(i, fr, token.NoPos, m, []value{b.v}, nil)
+		for k, n := range i.hraftNodes {
+			if n.leader && !n.down && k < len(i.hmlDelegates) {
+				d := i.hmlDelegates[k].(iface)
+				nm := findMethod(i, d.t, "NotifyMsg")
+				if nm == nil {
+					panic(abortPath{why: "gossip model: delegate without NotifyMsg", kind: "unsupported"})
+				}
+				callSSA(i, fr, token.NoPos, nm, []value{d.v, msg}, nil)
+				return nil
+			}
+		}
+		return nil
+	}
+	intrinsics["(*"+hmlPkg+".TransmitLimitedQueue).GetBroadcasts"] = func(fr *frame, args []value) value { return []value(nil) }
+	intrinsics["(*"+hmlPkg+".TransmitLimitedQueue).NumQueued"] = func(fr *frame, args []value) value { return int(0) }
 }
